@@ -111,7 +111,7 @@ var c06FaultClasses = []string{"set_ro", "stop_io", "gtid_executed", "change_sou
 // TestVerifC06: every switch request reaches exactly one terminal outcome, in bounded time.
 func TestVerifC06(t *testing.T) {
 	stt := vs.NewStats(t, "C06")
-	stt.Rule = "histories over converged semi-sync clusters of 2-3 HA hosts with switchover_max_attempts in {0,1,3,60} and switchover_timeout in {1m,30m}: 10-40 actions from {round of ticks, manager tick left in flight, operator request (to/from/failover), worker-written request (with or without master_transition / initiated_at), two initiators at once, master crash (automatic failover) and restart, abort, abort+new request (also while an attempt is in flight), sticky MySQL-side fault making attempts fail / cleared, light maintenance on/leave, time advance 2s-31min}; ZooKeeper calls of the manager succeed; oracle over the ordered log of writes/deletes of switch, last_switch, last_rejected_switch (identity = initiated_by+initiated_at): no write over a pending request, exactly one terminal event, nothing touches a request afterwards, failed attempts counted by exactly one, plus per completed manager tick: a request older than the timeout or a planned one with run_count>=limit>0 is terminal at the end of the tick (outside light-maintenance parking), a retried request is not rejected without an attempt except for limit/timeout, a success record implies master key = the node made writable and it is writable; non-trivial = >=2 attempts, an abort, competing initiators, or a limit/timeout reached"
+	stt.Rule = "histories over converged semi-sync clusters of 2-3 HA hosts with switchover_max_attempts in {0,1,3,60} and switchover_timeout in {1m,30m}: 10-40 actions from {round of ticks, manager tick left in flight, operator request (to/from/failover), worker-written request (with or without master_transition / initiated_at), two initiators at once, an operator request slipping in between the manager's look at the switch key and its own filing of a failover, master crash (automatic failover) and restart, abort, abort+new request (also while an attempt is in flight), sticky MySQL-side fault making attempts fail / cleared, light maintenance on/leave, time advance 2s-31min}; ZooKeeper calls of the manager succeed; oracle over the ordered log of writes/deletes of switch, last_switch, last_rejected_switch (identity = initiated_by+initiated_at): no write over a pending request, exactly one terminal event, nothing touches a request afterwards, failed attempts counted by exactly one, plus per completed manager tick: a request older than the timeout or a planned one with run_count>=limit>0 is terminal at the end of the tick (outside light-maintenance parking), a retried request is not rejected without an attempt except for limit/timeout, a success record implies master key = the node made writable and it is writable; non-trivial = >=2 attempts, an abort, competing initiators, or a limit/timeout reached"
 	stt.Assumptions = simAssumptions
 	stt.Check(t, vs.CheckOpts{Bubble: true}, func(c *vs.Case) {
 		n := c.Src.Int("ha_hosts", 2, 3)
@@ -268,7 +268,7 @@ func TestVerifC06(t *testing.T) {
 		steps := c.Src.Int("steps", 10, 40)
 		for i := 0; i < steps; i++ {
 			act := c.Src.Pick("action", "round", "round", "round", "manager-tick-inflight", "file", "file", "compete", "crash-master", "start-hosts",
-				"abort", "abort+refile", "fault-on", "fault-off", "light-maint", "leave-maint", "advance", "grind")
+				"abort", "abort+refile", "fault-on", "fault-off", "light-maint", "leave-maint", "advance", "grind", "race-the-filing")
 			switch act {
 			case "round":
 				for _, p := range s.alive() {
@@ -320,6 +320,45 @@ func TestVerifC06(t *testing.T) {
 				}
 				sawCompete = true
 			case "crash-master":
+				s.crashMySQL(s.masterKey())
+			case "race-the-filing":
+				// another initiator gets its request in between the manager's look at the switch key
+				// and the manager's own filing of a failover: armed here, fires at the manager's next
+				// write of a NEW request (the CLI's create-if-absent happens first), then the master dies
+				armed := true
+				reads, tickNo := 0, -1
+				s.zk.Intercept = func(r *vs.ZKReq) vs.ZKAction {
+					if !armed || r.Client == "raw" || r.Path != simNS+"/"+pathCurrentSwitch {
+						return vs.ZKProceed
+					}
+					if _, pending := s.zkGet(pathCurrentSwitch); pending {
+						return vs.ZKProceed
+					}
+					fire := false
+					switch r.Op {
+					case vs.OpGetData:
+						// the second look at the absent key within one iteration is the one inside a
+						// read-then-write filing (the first is the iteration's "is anything pending?")
+						for _, p := range s.all {
+							if p.id == r.Client {
+								if p.ticks != tickNo {
+									tickNo, reads = p.ticks, 0
+								}
+								reads++
+								fire = reads == 2
+							}
+						}
+					case vs.OpCreate, vs.OpSetData:
+						fire = strings.Contains(string(r.Data), `"`+string(CauseAuto)+`"`)
+					}
+					if fire {
+						armed = false
+						file("to")
+						sawCompete = true
+						c.Class("operator-request-slipped-in-before-the-manager's-filing")
+					}
+					return vs.ZKProceed
+				}
 				s.crashMySQL(s.masterKey())
 			case "start-hosts":
 				for _, h := range s.hostNames() {
